@@ -35,6 +35,8 @@ FieldChecks(ev) ==
     [] o = "fp.neg"  -> << rc, <<"value", RR = NegMod(A, PF(f))>> >>
     [] o = "fp.sqr"  -> << rc, <<"value", RR = FMul(f, A, A)>> >>
     [] o = "fp.inv"  -> << rc, <<"value", IF IsZero(A) THEN IsZero(RR) ELSE FMul(f, A, RR) = One>> >>
+    [] o = "fp.inv_m" -> << rc, <<"value", IF IsZero(A) THEN IsZero(RR) ELSE FMul(f, A, RR) = One>> >>
+    [] o = "fp.copy" -> << <<"value", Norm(ev.out.r) = Norm(ev.a)>> >>
     [] o = "fp.exp"  -> << rc, <<"value", RR = ModExp(A, Norm(ev.e), PF(f))>> >>
     [] o = "fp.legendre" -> << <<"value", ev.out.v = Leg(f, A)>> >>
     [] o = "fp.sqrt" -> << <<"pre.square", Leg(f, A) # (0 - 1)>>, rc, <<"value", FMul(f, RR, RR) = A>> >>
@@ -69,12 +71,23 @@ RawChecks(ev) ==
     [] o = "raw.redc" -> << <<"pre.range", Lt(Norm(ev.w), Mul(p, W384))>>,
                             <<"pre.inv", ModN(Mul(p, Norm(ev.inv)), W384) = Sub(W384, One)>>,
                             <<"value", r = MulMod(Norm(ev.w), ModInv(ModN(W384, p), p), p)>> >>
+    [] o = "raw.copy" -> << <<"value", r = a>> >>
+    [] o = "raw.shr1" -> << <<"value", r = ShiftR(a, 1)>>, <<"carry", ev.out.c = Bit(a, 0)>> >>
+    [] o = "raw.shr" -> << <<"pre.range", ev.amt < 384>>, <<"value", r = ShiftR(a, ev.amt)>> >>
+    [] o = "raw.shl" -> << <<"pre.range", ev.amt < 384>>, <<"value", r = ModN(ShiftL(a, ev.amt), W384)>> >>
+    [] o = "raw.divword" -> << <<"value", a = Add(Mul(r, FromNat(65537)), Norm(ev.out.rem))>>, <<"rem", Lt(Norm(ev.out.rem), FromNat(65537))>> >>
+    [] o = "raw.divdword" -> << <<"value", a = Add(Mul(r, XAbs), Norm(ev.out.rem))>>, <<"rem", Lt(Norm(ev.out.rem), XAbs)>> >>
+    [] o = "raw.fpneg" -> << <<"pre.range", Lt(a, p)>>, <<"value", r = NegMod(a, p)>> >>
+    [] o = "raw.fpmul" -> << <<"pre.range", Lt(a, p) /\ Lt(b, p)>>,
+                             <<"value", r = MulMod(MulMod(a, IF ev.alias = 3 THEN a ELSE b, p), ModInv(ModN(W384, p), p), p)>> >>
+    [] o = "raw.fpsqr" -> << <<"pre.range", Lt(a, p)>>, <<"value", r = MulMod(MulMod(a, a, p), ModInv(ModN(W384, p), p), p)>> >>
     [] o = "raw.cmp" -> << <<"value", ev.out.v = Cmp(a, b)>> >>
     [] o = "raw.dispatch" -> << <<"value", ev.backend = "base" \/ ev.out.table = (IF ev.out.bmi2 = 1 THEN "bmi2" ELSE "base")>> >>
     [] OTHER -> << <<"unknown-op", FALSE>> >>
 
 Fails(ev) == FailsOf(IF ev.op \in {"raw.add", "raw.sub", "raw.shl1", "raw.fpadd", "raw.fpsub", "raw.fpdbl", "raw.mul",
-                                    "raw.sqr", "raw.redc", "raw.cmp", "raw.dispatch"}
+                                    "raw.sqr", "raw.redc", "raw.cmp", "raw.dispatch", "raw.copy", "raw.shr1", "raw.shr", "raw.shl",
+                                    "raw.divdword", "raw.divword", "raw.fpneg", "raw.fpmul", "raw.fpsqr"}
                      THEN RawChecks(ev) ELSE FieldChecks(ev))
 
 Init == l \in 1..NLines /\ st = "todo"
